@@ -51,6 +51,15 @@ pub struct World {
 	pub fault_kind: [bool; 7],
 	/// number of faults that fired
 	pub faults: u8,
+	/// number of raw operations attempted in the dialect (faulted ones included)
+	pub d_ops: u8,
+	/// persistent faults only on the lock at this address (0 = any lock)
+	pub evil_addr: usize,
+	/// address of the raw lock and kind of the operation where the first fault fired
+	pub fault_addr: usize,
+	pub fault_op: u8,
+	/// 0: any operation may fault, 1: only acquisitions, 2: only releases
+	pub fault_class: u8,
 }
 
 pub static mut W: World = World::new();
@@ -71,6 +80,11 @@ impl World {
 			fault_at: 255,
 			fault_kind: [false; 7],
 			faults: 0,
+			d_ops: 0,
+			evil_addr: 0,
+			fault_addr: 0,
+			fault_op: 0,
+			fault_class: 0,
 		}
 	}
 }
